@@ -264,6 +264,35 @@ def run(ck: Check, prog: Program) -> None:
     if not ok_b:
         ck.finding('ERROR-RAISED', br.qualname, 'batch-level error not raised', br.module.rel, br.node.lineno,
                    'a batch-level error object must be raised for the batch')
+    # ... and that property is what the batch notations hand back: Batch.call / AsyncBatch.call return `response.result` (which raises),
+    # not something rebuilt from the elements (a batch-level error has no elements)
+    from ..flow import Flow as _FlowC
+    for cq in ('pjrpc.client.client.Batch', 'pjrpc.client.client.AsyncBatch'):
+        ci_ = prog.cls(cq)
+        cm = ci_.methods.get('call')
+        if cm is None:
+            raise AnalysisError(f'{cq}.call not found')
+        ck.functions.add(cm.qualname)
+        ccfg = CFG(cm, prog)
+        cfl = _FlowC(ccfg)
+        bad_ret = []
+        n_ret = 0
+        for n in ccfg.stmt_nodes():
+            if n.kind == 'stmt' and isinstance(n.ast, ast.Return) and n.ast.value is not None:
+                for al in cfl.alts(n, n.ast.value):
+                    v = al.expr
+                    n_ret += 1
+                    if isinstance(v, ast.Constant) and v.value is None:
+                        continue
+                    if isinstance(v, ast.Attribute) and v.attr == 'result':
+                        continue
+                    bad_ret.append((n.line, norm(v)[:70]))
+        ck.ob('ERROR-RAISED', f'{ci_.name}.call returns the batch response\'s `result` (the property that raises a batch-level or element error)',
+              not bad_ret and n_ret > 0)
+        for line, txt in bad_ret:
+            ck.finding('ERROR-RAISED', cm.qualname, f'batch call returns `{txt[:40]}`', cm.module.rel, line,
+                       f'{ci_.name}.call returns `{txt}` instead of `response.result`: a batch answered with a batch-level error (one error object, '
+                       f'no elements) yields an empty result instead of raising the error')
 
 
 def result_iteration(prog: Program):
@@ -339,6 +368,9 @@ def _order_by_request(ck: Check, prog: Program, brel: FuncInfo, bcfg: CFG, breq:
 
 
 MUTANTS = [
+    dict(name='duplicate-scan-stops-at-a-null-id', file='pjrpc/common/v20.py', nth=0,
+         find='                if id is None:\n                    continue\n', replace='                if id is None:\n                    break\n',
+         expect=['DUP-CHECK', 'RELATE-STRICT']),
     dict(name='relate-loop-stops-when-map-is-empty', file='pjrpc/client/client.py',
          find='                    elif response is not None:\n                        response.related = request\n',
          replace='                    elif response is not None:\n                        response.related = request\n'
